@@ -49,7 +49,7 @@ CHECKS = {
             "Stored names unchanged by language, locale, sheet move, reload and xlsx round trip; follow sheet renames; survive deleting other sheets; renaming a name (global, local, LAMBDA, range) updates its uses and changes no value.",
             "The xlsx leading-'=' difference of LAMBDA names is a recorded finding.", "4 C32"),
     "C18": ("reentry", "model_checking", "TLA+ Reentry.tla (Reenter is a stuttering step of the 4-component cell; also the input space) enumerated by TLC; TraceReentry.tla validates the recorded type / re-enter events of every input x language/locale pair",
-            "Exhaustive over all strings up to length 3 (thorough 4) over a 17-character alphabet plus a 145-entry vocabulary, in 8 (thorough 12) language/locale pairs; content, type, style and 15-digit value compared as interned ids by TLC.",
+            "Exhaustive over all strings up to length 3 (thorough 4) over a 17-character alphabet plus a 178-entry vocabulary, in 8 (thorough 12) language/locale pairs; content, type, style and 15-digit value compared as interned ids by TLC.",
             "Fresh default-styled cells only; pre-styled cells are future growth.", "4 C18"),
     "C24": ("xlsxrt", "model_checking", "TLA+ Xlsx.tla (Export then Import is a stuttering step; model-checked) and TraceXlsx.tla: recorded random histories with export+import events validated by TLC component by component",
             "Random catalogue histories (60 quick / 700 thorough, seeded) with a real xlsx export + import every 8 operations; 9 components of the statement compared as interned ids by TLC.",
